@@ -366,6 +366,19 @@ class Checker:
         self.stats = Counter()
         self.dg = Digest()
         self.sample = None
+        self.env = False
+
+    def _ctx(self):
+        """process-global NumPy state a user script may have changed (print options, error
+        state): what is written to / read from a file must not depend on it"""
+        import contextlib
+
+        st = contextlib.ExitStack()
+        if self.env:
+            st.enter_context(np.printoptions(precision=3, threshold=4, edgeitems=1, suppress=True, floatmode="fixed"))
+            st.enter_context(np.errstate(all="raise"))
+            self.stats["io_under_changed_numpy_global_state"] += 1
+        return st
 
     def v(self, key, detail, replay):
         self.viol.append({"key": key, "detail": detail, "replay": replay})
@@ -375,7 +388,8 @@ class Checker:
         if plan:
             self.fs.arm_next("r", **plan)
         try:
-            o = do_load(kind, fmt, path, explicit)
+            with self._ctx():
+                o = do_load(kind, fmt, path, explicit)
         except Exception as e:
             self.fs.disarm()
             if UNSUPPORTED_MARK in str(e):
@@ -392,7 +406,8 @@ class Checker:
         if plan:
             self.fs.arm_next("w", **plan)
         try:
-            do_dump(obj, kind, fmt, path)
+            with self._ctx():
+                do_dump(obj, kind, fmt, path)
         except Exception as e:
             self.fs.disarm()
             if UNSUPPORTED_MARK in str(e):
@@ -742,11 +757,12 @@ def gen_history(seed, nops=None):
         if c == "short":
             op["chunk"] = rng.choice(["one", "third", "seven", "rand"])
         ops.append(op)
-    return {"objs": objs, "ops": ops}
+    return {"objs": objs, "ops": ops, "env": bool(rng.chance(0.3))}
 
 
 def exec_history(hist, spec, real_dir=None):
     ck = Checker(real_dir)
+    ck.env = bool(hist.get("env"))
     fs = ck.fs
     fs.install()
     rp = {"property": PROP, "engine": "fsim", "case": {"kind": "history", "hist": hist, "real_fs": bool(spec.get("real_fs"))}}
@@ -1240,13 +1256,13 @@ def minimise(v):
         changed = False
         for i in range(len(ops)):
             cand = ops[:i] + ops[i + 1 :]
-            if fails({"objs": hist["objs"], "ops": cand}):
+            if fails(dict(hist, ops=cand)):
                 ops = cand
                 changed = True
                 break
     v = dict(v)
     rp = dict(v["replay"])
-    rp["case"] = dict(case, hist={"objs": hist["objs"], "ops": ops})
+    rp["case"] = dict(case, hist=dict(hist, ops=ops))
     rp["minimised_from_ops"] = len(hist["ops"])
     v["replay"] = rp
     return v
